@@ -184,6 +184,39 @@ impl Engine for C03 {
             Ok(Err(e)) => out.push(Violation::new("T0", "refused-wellformed", "read(write(M))", format!("{e:#}"))),
             Err(pm) => out.push(Violation::new("T0", "panic", format!("read:{}", panic_path(&pm)), pm)),
         }
+        // an entry line that occurs twice (same key under the same parent): reading it would merge two entries or
+        // re-parent the children of the second block, so the reader has to refuse it (keyed insertion rejects duplicate
+        // source keys) - missed seeded change C03-9. Comment lines are not entries and are left alone.
+        {
+            let lines: Vec<&[u8]> = t0.split_inclusive(|b| *b == b'\n').collect();
+            let cands: Vec<usize> = lines
+                .iter()
+                .enumerate()
+                .skip(1)
+                .filter(|(_, l)| {
+                    let depth = l.iter().take_while(|b| **b == b'\t').count();
+                    let rest = &l[depth..];
+                    l.ends_with(b"\n") && ((depth == 0 && rest.starts_with(b"c\t")) || (depth == 1 && (rest.starts_with(b"f\t") || rest.starts_with(b"m\t"))) || (depth == 2 && rest.starts_with(b"p\t")))
+                })
+                .map(|(i, _)| i)
+                .collect();
+            if !cands.is_empty() {
+                let at = cands[((p.order_a ^ p.order_b.rotate_left(17) ^ crate::rng::fnv(&t0)) % cands.len() as u64) as usize];
+                let mut dup = Vec::with_capacity(t0.len() + lines[at].len());
+                for (i, l) in lines.iter().enumerate() {
+                    dup.extend_from_slice(l);
+                    if i == at {
+                        dup.extend_from_slice(l);
+                    }
+                }
+                st.probe("duplicate_entry_line");
+                match no_panic(|| with_n!(n, read_real(&dup[..]))) {
+                    Ok(Ok(_)) => out.push(Violation::new("T0", "accepted-malformed-text", "duplicate-entry", format!("line {} of the written text occurs twice and read returned Ok: {:?}", at + 1, String::from_utf8_lossy(lines[at]).trim_end()))),
+                    Ok(Err(_)) => {}
+                    Err(pm) => out.push(Violation::new("T0", "panic", format!("read-duplicate:{}", panic_path(&pm)), pm)),
+                }
+            }
+        }
         // fixed point
         match no_panic(|| with_n!(n, rewrite_real(&t0))) {
             Ok(Ok(t1)) => {
